@@ -286,11 +286,12 @@ pub fn bodies(tier: &str) -> Vec<BodySpec> {
     let q = tier == "quick";
     let b = |body: KvBody, bound: usize, secs: f64| BodySpec { body: Arc::new(body), bound, secs };
     let mut v = vec![
-        b(KvBody { name: "2writers+reader", workers: 0, tiny: false, presealed: 0, jrot: false, initial: vec![], threads: vec![vec![Ins("a", "1")], vec![Ins("a", "2")], vec![Get("a"), Get("a")]] }, if q { 2 } else { 3 }, if q { 9.0 } else { 200.0 }),
-        b(KvBody { name: "ins-rem vs readers", workers: 0, tiny: false, presealed: 0, jrot: false, initial: vec![("a", "0")], threads: vec![vec![Ins("a", "1"), Rem("a")], vec![Get("a"), Contains("a")], vec![Ins("b", "2"), SizeOf("a")]] }, 2, if q { 9.0 } else { 200.0 }),
-        b(KvBody { name: "tiny-memtable+worker", workers: 1, tiny: true, presealed: 0, jrot: false, initial: vec![], threads: vec![vec![Ins("a", "1"), Ins("b", "1")], vec![Ins("a", "2"), Get("b")], vec![Get("a"), Scan]] }, if q { 1 } else { 2 }, if q { 10.0 } else { 300.0 }),
-        b(KvBody { name: "write-stall(4 sealed)+worker", workers: 1, tiny: false, presealed: 4, jrot: false, initial: vec![], threads: vec![vec![Ins("a", "9"), Get("a")], vec![Get("p")]] }, if q { 1 } else { 2 }, if q { 8.0 } else { 200.0 }),
+        b(KvBody { name: "2writers+reader", workers: 0, tiny: false, presealed: 0, jrot: false, initial: vec![], threads: vec![vec![Ins("a", "1")], vec![Ins("a", "2")], vec![Get("a"), Get("a")]] }, if q { 2 } else { 3 }, if q { 7.0 } else { 200.0 }),
+        b(KvBody { name: "ins-rem vs readers", workers: 0, tiny: false, presealed: 0, jrot: false, initial: vec![("a", "0")], threads: vec![vec![Ins("a", "1"), Rem("a")], vec![Get("a"), Contains("a")], vec![Ins("b", "2"), SizeOf("a")]] }, 2, if q { 7.0 } else { 200.0 }),
+        b(KvBody { name: "tiny-memtable+worker", workers: 1, tiny: true, presealed: 0, jrot: false, initial: vec![], threads: vec![vec![Ins("a", "1"), Ins("b", "1")], vec![Ins("a", "2"), Get("b")], vec![Get("a"), Scan]] }, if q { 1 } else { 2 }, if q { 3.0 } else { 300.0 }),
+        b(KvBody { name: "write-stall(4 sealed)+worker", workers: 1, tiny: false, presealed: 4, jrot: false, initial: vec![], threads: vec![vec![Ins("a", "9"), Get("a")], vec![Get("p")]] }, if q { 1 } else { 2 }, if q { 5.0 } else { 200.0 }),
     ];
+    v.push(b(KvBody { name: "tiny-memtable+worker [focus:write-path]", workers: 1, tiny: true, presealed: 0, jrot: false, initial: vec![], threads: vec![vec![Ins("a", "1"), Ins("b", "1")], vec![Ins("a", "2"), Get("b")], vec![Get("a"), Scan]] }, 2, if q { 6.0 } else { 300.0 }));
     {
         use crate::props::c06::{Act, Finals, Kind, VisBody};
         v.push(BodySpec {
